@@ -95,141 +95,221 @@ func runSpecialLeaf(c *core.Ctx) {
 	}
 	info := pk.TypesInfo
 	unwrapOnce, unwrapMulti := pk.Types.Scope().Lookup("UnwrapOnce"), pk.Types.Scope().Lookup("UnwrapMulti")
+	// the hand-written function declarations of the package
+	var decls []*ast.FuncDecl
 	for _, file := range pk.Syntax {
 		if strings.HasSuffix(p.Fset.Position(file.Pos()).Filename, "_test.go") {
 			continue
 		}
 		for _, d := range file.Decls {
-			fd, ok := d.(*ast.FuncDecl)
-			if !ok || fd.Body == nil {
+			if fd, ok := d.(*ast.FuncDecl); ok && fd.Body != nil {
+				decls = append(decls, fd)
+			}
+		}
+	}
+	// single-assignment locals of a function: ident object -> defining expression
+	type fctx struct {
+		defs  map[types.Object]ast.Expr
+		multi map[types.Object]bool
+	}
+	ctxs := map[*ast.FuncDecl]*fctx{}
+	ctxOf := func(fd *ast.FuncDecl) *fctx {
+		if x, ok := ctxs[fd]; ok {
+			return x
+		}
+		x := &fctx{map[types.Object]ast.Expr{}, map[types.Object]bool{}}
+		ast.Inspect(fd.Body, func(n ast.Node) bool {
+			as, ok := n.(*ast.AssignStmt)
+			if !ok || len(as.Lhs) != len(as.Rhs) {
+				return true
+			}
+			for i, l := range as.Lhs {
+				id, ok := l.(*ast.Ident)
+				if !ok {
+					continue
+				}
+				obj := info.Defs[id]
+				if obj == nil {
+					obj = info.Uses[id]
+					if obj != nil {
+						x.multi[obj] = true
+					}
+					continue
+				}
+				x.defs[obj] = as.Rhs[i]
+			}
+			return true
+		})
+		ctxs[fd] = x
+		return x
+	}
+	resolveIn := func(fd *ast.FuncDecl, e ast.Expr) ast.Expr {
+		x := ctxOf(fd)
+		e = ast.Unparen(e)
+		if id, ok := e.(*ast.Ident); ok {
+			if obj := info.Uses[id]; obj != nil && !x.multi[obj] {
+				if d, ok := x.defs[obj]; ok {
+					return ast.Unparen(d)
+				}
+			}
+		}
+		return e
+	}
+	// the flattened parameter objects of a declaration
+	paramsOf := func(fd *ast.FuncDecl) []types.Object {
+		var out []types.Object
+		for _, f := range fd.Type.Params.List {
+			for _, n := range f.Names {
+				out = append(out, info.Defs[n])
+			}
+		}
+		return out
+	}
+	// decide: does the isLeaf actual `leaf`, in the body of fd, contain both conjuncts about errObj? A plain
+	// parameter of fd stands for the actuals at every call of fd in the package (the error followed by position).
+	var decide func(fd *ast.FuncDecl, leaf ast.Expr, errObj types.Object, depth int) (single, multiC bool)
+	decide = func(fd *ast.FuncDecl, leaf ast.Expr, errObj types.Object, depth int) (single, multiC bool) {
+		isCallTo := func(e ast.Expr, target types.Object, arg types.Object) bool {
+			call, ok := resolveIn(fd, e).(*ast.CallExpr)
+			if !ok || len(call.Args) != 1 {
+				return false
+			}
+			var fobj types.Object
+			switch f := call.Fun.(type) {
+			case *ast.Ident:
+				fobj = info.Uses[f]
+			case *ast.SelectorExpr:
+				fobj = info.Uses[f.Sel]
+			}
+			if fobj != target {
+				return false
+			}
+			aid, ok := ast.Unparen(call.Args[0]).(*ast.Ident)
+			return ok && info.Uses[aid] == arg
+		}
+		var conj []ast.Expr
+		var split func(e ast.Expr)
+		split = func(e ast.Expr) {
+			e = ast.Unparen(resolveIn(fd, e)) // a single-assignment local (isLeaf := a && b) stands for its definition
+			if be, ok := e.(*ast.BinaryExpr); ok && be.Op == token.LAND {
+				split(be.X)
+				split(be.Y)
+				return
+			}
+			conj = append(conj, resolveIn(fd, e))
+		}
+		split(leaf)
+		for _, cj := range conj {
+			cj = ast.Unparen(cj)
+			// a parameter of fd: every call site of fd must supply the conjuncts
+			if id, ok := cj.(*ast.Ident); ok && depth < 3 {
+				params := paramsOf(fd)
+				li, ei := -1, -1
+				for i, po := range params {
+					if po != nil && po == info.Uses[id] {
+						li = i
+					}
+					if po != nil && po == errObj {
+						ei = i
+					}
+				}
+				if li >= 0 && ei >= 0 {
+					fobj := info.Defs[fd.Name]
+					nSites, allS, allM := 0, true, true
+					for _, caller := range decls {
+						ast.Inspect(caller.Body, func(n ast.Node) bool {
+							call, ok := n.(*ast.CallExpr)
+							if !ok || len(call.Args) != len(params) {
+								return true
+							}
+							var cobj types.Object
+							switch f := call.Fun.(type) {
+							case *ast.Ident:
+								cobj = info.Uses[f]
+							case *ast.SelectorExpr:
+								cobj = info.Uses[f.Sel]
+							}
+							if cobj == nil || cobj != fobj {
+								return true
+							}
+							nSites++
+							eid, ok := ast.Unparen(call.Args[ei]).(*ast.Ident)
+							if !ok {
+								allS, allM = false, false
+								return true
+							}
+							s1, m1 := decide(caller, call.Args[li], info.Uses[eid], depth+1)
+							allS, allM = allS && s1, allM && m1
+							return true
+						})
+					}
+					if nSites > 0 {
+						single, multiC = single || allS, multiC || allM
+					}
+				}
 				continue
 			}
-			// single-assignment locals: ident object -> defining expression
-			defs := map[types.Object]ast.Expr{}
-			multi := map[types.Object]bool{}
-			ast.Inspect(fd.Body, func(n ast.Node) bool {
-				as, ok := n.(*ast.AssignStmt)
-				if !ok || len(as.Lhs) != len(as.Rhs) {
-					return true
-				}
-				for i, l := range as.Lhs {
-					id, ok := l.(*ast.Ident)
-					if !ok {
-						continue
-					}
-					obj := info.Defs[id]
-					if obj == nil {
-						obj = info.Uses[id]
-						if obj != nil {
-							multi[obj] = true
-						}
-						continue
-					}
-					defs[obj] = as.Rhs[i]
-				}
-				return true
-			})
-			resolve := func(e ast.Expr) ast.Expr {
-				e = ast.Unparen(e)
-				if id, ok := e.(*ast.Ident); ok {
-					if obj := info.Uses[id]; obj != nil && !multi[obj] {
-						if d, ok := defs[obj]; ok {
-							return ast.Unparen(d)
-						}
-					}
-				}
-				return e
+			be, ok := cj.(*ast.BinaryExpr)
+			if !ok || be.Op != token.EQL {
+				continue
 			}
-			isCallTo := func(e ast.Expr, target types.Object, arg types.Object) bool {
-				call, ok := resolve(e).(*ast.CallExpr)
-				if !ok || len(call.Args) != 1 {
-					return false
+			// X == nil with X = UnwrapOnce(err)
+			if id, ok := be.Y.(*ast.Ident); ok && id.Name == "nil" {
+				if isCallTo(be.X, unwrapOnce, errObj) {
+					single = true
 				}
-				var fobj types.Object
-				switch f := call.Fun.(type) {
-				case *ast.Ident:
-					fobj = info.Uses[f]
-				case *ast.SelectorExpr:
-					fobj = info.Uses[f.Sel]
+				if isCallTo(be.X, unwrapMulti, errObj) {
+					multiC = true // causes == nil
 				}
-				if fobj != target {
-					return false
-				}
-				aid, ok := ast.Unparen(call.Args[0]).(*ast.Ident)
-				return ok && info.Uses[aid] == arg
 			}
-			ast.Inspect(fd.Body, func(n ast.Node) bool {
-				call, ok := n.(*ast.CallExpr)
-				if !ok || len(call.Args) != 3 {
-					return true
-				}
-				fid, ok := call.Fun.(*ast.Ident)
-				if !ok {
-					return true
-				}
-				v, ok := info.Uses[fid].(*types.Var)
-				if !ok {
-					return true
-				}
-				sig, ok := types.Unalias(v.Type()).Underlying().(*types.Signature)
-				if !ok || sig.Params().Len() != 3 || !sx.IsErrorType(sig.Params().At(0).Type()) || !sx.IsNamed(sig.Params().At(1).Type(), errbasePath, "Printer") {
-					return true
-				}
-				nB++
-				errID, ok := ast.Unparen(call.Args[0]).(*ast.Ident)
-				if !ok {
-					c.Undecided("errbase."+fd.Name.Name+": special-case printer call", call.Pos(), "first argument is not a plain identifier")
-					return true
-				}
-				errObj := info.Uses[errID]
-				var conj []ast.Expr
-				var split func(e ast.Expr)
-				split = func(e ast.Expr) {
-					e = ast.Unparen(resolve(e)) // a single-assignment local (isLeaf := a && b) stands for its definition
-					if be, ok := e.(*ast.BinaryExpr); ok && be.Op == token.LAND {
-						split(be.X)
-						split(be.Y)
-						return
-					}
-					conj = append(conj, resolve(e))
-				}
-				split(call.Args[2])
-				single, multiC := false, false
-				for _, cj := range conj {
-					be, ok := ast.Unparen(cj).(*ast.BinaryExpr)
-					if !ok || be.Op != token.EQL {
-						continue
-					}
-					// X == nil with X = UnwrapOnce(err)
-					if id, ok := be.Y.(*ast.Ident); ok && id.Name == "nil" {
-						if isCallTo(be.X, unwrapOnce, errObj) {
-							single = true
-						}
-						if isCallTo(be.X, unwrapMulti, errObj) {
-							multiC = true // causes == nil
-						}
-					}
-					// len(Y) == 0 with Y = UnwrapMulti(err)
-					if lc, ok := ast.Unparen(be.X).(*ast.CallExpr); ok && len(lc.Args) == 1 {
-						if lid, ok := lc.Fun.(*ast.Ident); ok && lid.Name == "len" {
-							if z, ok := intConst(info, be.Y); ok && z == 0 && isCallTo(lc.Args[0], unwrapMulti, errObj) {
-								multiC = true
-							}
-						}
+			// len(Y) == 0 with Y = UnwrapMulti(err)
+			if lc, ok := ast.Unparen(be.X).(*ast.CallExpr); ok && len(lc.Args) == 1 {
+				if lid, ok := lc.Fun.(*ast.Ident); ok && lid.Name == "len" {
+					if z, ok := intConst(info, be.Y); ok && z == 0 && isCallTo(lc.Args[0], unwrapMulti, errObj) {
+						multiC = true
 					}
 				}
-				construct := "errbase." + fd.Name.Name + ": isLeaf argument of the special-case printer call"
-				switch {
-				case single && multiC:
-					c.Ob(construct, call.Pos(), true, "isLeaf = (UnwrapOnce(err) == nil) && (len(UnwrapMulti(err)) == 0) [+ other conjuncts]")
-				case single:
-					c.Fail(construct, call.Pos(), "isLeaf is true for multi-cause errors: the conjunct len(UnwrapMulti(err)) == 0 is missing, so fmt.Errorf(\"secret %w … %w\", sentinel, e) is printed entirely as safe")
-				default:
-					c.Fail(construct, call.Pos(), "isLeaf does not include UnwrapOnce(err) == nil")
-				}
-				return true
-			})
+			}
 		}
+		return single, multiC
+	}
+	for _, fd := range decls {
+		fd := fd
+		ast.Inspect(fd.Body, func(n ast.Node) bool {
+			call, ok := n.(*ast.CallExpr)
+			if !ok || len(call.Args) != 3 {
+				return true
+			}
+			fid, ok := call.Fun.(*ast.Ident)
+			if !ok {
+				return true
+			}
+			v, ok := info.Uses[fid].(*types.Var)
+			if !ok {
+				return true
+			}
+			sig, ok := types.Unalias(v.Type()).Underlying().(*types.Signature)
+			if !ok || sig.Params().Len() != 3 || !sx.IsErrorType(sig.Params().At(0).Type()) || !sx.IsNamed(sig.Params().At(1).Type(), errbasePath, "Printer") {
+				return true
+			}
+			nB++
+			errID, ok := ast.Unparen(call.Args[0]).(*ast.Ident)
+			if !ok {
+				c.Undecided("errbase."+fd.Name.Name+": special-case printer call", call.Pos(), "first argument is not a plain identifier")
+				return true
+			}
+			single, multiC := decide(fd, call.Args[2], info.Uses[errID], 0)
+			construct := "errbase." + fd.Name.Name + ": isLeaf argument of the special-case printer call"
+			switch {
+			case single && multiC:
+				c.Ob(construct, call.Pos(), true, "isLeaf = (UnwrapOnce(err) == nil) && (len(UnwrapMulti(err)) == 0) [+ other conjuncts]")
+			case single:
+				c.Fail(construct, call.Pos(), "isLeaf is true for multi-cause errors: the conjunct len(UnwrapMulti(err)) == 0 is missing, so fmt.Errorf(\"secret %w … %w\", sentinel, e) is printed entirely as safe")
+			default:
+				c.Fail(construct, call.Pos(), "isLeaf does not include UnwrapOnce(err) == nil")
+			}
+			return true
+		})
 	}
 	c.Min("whole-text Safe(err.Error()) sites in special-case printers", nA, 1)
 	c.Min("special-case printer call sites", nB, 1)
